@@ -464,13 +464,25 @@ impl Mp4Track {
                     )?;
                 }
 
+                // the sizes of the earlier samples of this run, taken from the run itself
+                // (looking each one up by its sample id would search all track fragments again)
                 let first_sample_in_trun = sample_id - sample_idx as u32;
-                for i in first_sample_in_trun..sample_id {
-                    sample_offset = sample_offset
-                        .checked_add(self.sample_size(i)? as u64)
-                        .ok_or(Error::InvalidData(
+                let sizes = self.trafs[traf_idx]
+                    .trun
+                    .as_ref()
+                    .map(|trun| trun.sample_sizes.as_slice())
+                    .unwrap_or(&[]);
+                for i in 0..sample_idx {
+                    let size = sizes.get(i).ok_or(Error::EntryInTrunNotFound(
+                        self.track_id(),
+                        BoxType::TrunBox,
+                        first_sample_in_trun + i as u32,
+                    ))?;
+                    sample_offset = sample_offset.checked_add(*size as u64).ok_or(
+                        Error::InvalidData(
                             "attempt to calculate trun entry sample offset with overflow",
-                        ))?;
+                        ),
+                    )?;
                 }
 
                 Ok(sample_offset)
